@@ -2,6 +2,10 @@
 use crate::engine::Ctx;
 use serde_json::Value;
 
+pub fn c03_node(_ctx: &Ctx) {}
+
+pub fn c05_node(_ctx: &Ctx) {}
+
 pub fn c11_node(_ctx: &Ctx) {}
 
 pub fn c12_node(_ctx: &Ctx) {}
